@@ -27,15 +27,23 @@ Judge ==
     i = 0 \/
     LET c == R.crash
         f == R.final
-    IN /\ (R.half \/ Proj(c) \in ReachSet(R.style) \/ Say("DIVERGENCE", "crash-state-not-reachable-in-spec:" \o R.scenario, {}))
+        \* a verifying transfer out of a store one of whose objects has decayed is judged by the predicates and against the
+        \* uninterrupted run only: the design has no action for what verification drops (no reach set, nothing to converge to
+        \* but the reference)
+        unmodelled == R.style = "transferv-rot"
+    IN /\ (R.half \/ unmodelled \/ Proj(c) \in ReachSet(R.style) \/ Say("DIVERGENCE", "crash-state-not-reachable-in-spec:" \o R.scenario, {}))
        \* ---- the crash state itself
        /\ ((\A o \in Objs : c.objs[o].prot => c.objs[o].final \in {"ok", "none"}) \/ Say("VERDICT", "MismatchingObjectLeftProtected", {}))
-       /\ ((\A o \in Objs : c.objs[o].vouched => (Good(c, o) /\ ~c.objs[o].vouched_wrong)) \/ Say("VERDICT", "MismatchingObjectVouchedFor", {}))
+       \* (a row vouches for a mismatching object when the hash it records is not the hash of the bytes there; a truthful row
+       \* about an object that does not match its NAME - verification hashed it and was killed before removing it - harms
+       \* nobody: the next check reads the true hash from it and discards the object)
+       /\ ((\A o \in Objs : c.objs[o].vouched => ((Good(c, o) \/ unmodelled) /\ ~c.objs[o].vouched_wrong)) \/ Say("VERDICT", "MismatchingObjectVouchedFor", {}))
+       /\ ((\A o \in Objs : ~(c.objs[o].prot /\ c.objs[o].final \notin {"ok", "none"})) \/ Say("VERDICT", "MismatchingObjectLeftProtected", {}))
        /\ ((Good(c, "d1") => (Good(c, "f1") /\ Good(c, "f2"))) \/ Say("VERDICT", "DirectoryObjectWithoutItsFiles", {}))
        /\ (c.aliens = <<>> \/ Say("VERDICT", "ObjectUnderWrongName", {}))
        \* ---- after re-running the interrupted operation
        /\ (R.rerun_rc = 0 \/ Say("VERDICT", "RerunFailed", Dev))
-       /\ ((\A o \in Objs : Good(f, o) /\ f.objs[o].prot) \/ Say("VERDICT", "RerunDidNotConverge", Dev))
+       /\ (unmodelled \/ (\A o \in Objs : Good(f, o) /\ f.objs[o].prot) \/ Say("VERDICT", "RerunDidNotConverge", Dev))
        /\ ((\A o \in Objs : f.objs[o].final = R.reference[o].final /\ f.objs[o].prot = R.reference[o].prot)
               \/ Say("VERDICT", "RerunDiffersFromUninterruptedRun", Dev))
        /\ ((\A o \in Objs : f.objs[o].vouched => (Good(f, o) /\ ~f.objs[o].vouched_wrong)) \/ Say("VERDICT", "MismatchVouchedAfterRerun", Dev))
